@@ -24,20 +24,20 @@ TECH = {
     'C02': 'static analysis: three-valued path-condition analysis of token-text inspections, must-analysis of bounded reads with kills, token-kind producer/consumer tables, white-space decision table, witness formulas propagated through FormulaParser.tokenize / the tokenizer / OperandNode.eval',
     'C03': 'static analysis: decision tables by partial evaluation on witnesses ($-remover, XLFormula terms per sheet, resolve_ranges on witness rectangles, reader on an abstract workbook, build_code with a recording parser), loop-exit control dependence of range materialisation, address resolution of one node under several contexts',
     'C04': 'static analysis: who-may-read/write over the evaluation call graph with semantic cell-state exclusion, memo-scope analysis, effect analysis of stores on formula nodes, Evaluator.evaluate interpreted on witness models (state restored after failed / successful evaluations), sibling agreement of set/get/evaluate',
-    'C05': 'static analysis: write-set and retention analysis of the evaluation path, memoising-decorator rules incl. provable key kinds at every call site, nondeterminism-source reachability, global-state rules',
+    'C05': 'static analysis: write-set and retention analysis of the evaluation path, memoising-decorator rules incl. provable key kinds at every call site, nondeterminism-source reachability, global-state rules, default-argument objects changed in place ; whole witness workbooks evaluated in several orders / evaluators / models in one process, and the steady-state footprint of everything that outlives an evaluation',
     'C06': 'static analysis: the recursion Evaluator.evaluate -> formula tree -> eval_cell interpreted on witness models (cycles reported on re-entry, diamonds evaluate, evaluator state restored), handler message construction on every function an exception travels through, address resolution per evaluation',
     'C07': 'static analysis: registration discipline, error-discipline tables (swallowing handlers, partial operations), decision tables of the error inspectors on real error/value instances, wrapper contract dataflow, operator trees interpreted on error-capable operands',
     'C08': 'static analysis: annotation resolution against the cast table for every registered parameter, conversion-totality table through the MRO, import-graph reachability, name canonicalisation witnesses, two evaluators constructed around a registration (constructor interpreted, shared world)',
     'C09': 'static analysis: the full comparison table over representative values of every class pair computed on the real comparison methods (dunder dispatch, casts, blank conversion) by constant propagation and compared with one total order; structure of overrides and wrappers; constant-cell kinds',
     'C10': 'static analysis: partial evaluation of FunctionNode.eval and of IF/AND/OR/NOT on recording thunk models (which thunk is called, how often, for each abstract truth value / blank / array), default typing, error checks of thunk results ; IF on value-class instances; evaluator state after a failed branch',
-    'C11': 'static analysis: partial evaluation of the reader on an abstract workbook model (sheets, cells with formula/cached value/plain value, defined names): which keys and fields each returned map receives, effect of ignore_sheets, normalisation of name targets over witness spellings, build order ; build_defined_names interpreted on an abstract compiler',
-    'C12': 'static analysis: partial evaluation of writer and reader on abstract file/document models (keys, attributes, jsonpickle options, opener and mode chosen for each witness file name), reconstructibility contract of stored value and error classes ; effect analysis of stores on persisted formula nodes; __getstate__/__setstate__ round trip interpreted on witnesses',
+    'C11': 'static analysis: partial evaluation of the reader on an abstract workbook model (sheets, cells with formula/cached value/plain value, defined names): which keys and fields each returned map receives, normalisation of name targets over witness spellings, build order ; whole workbooks loaded through the reader path by interpretation (ignore lists, hidden sheets, names scoped to sheets, laid-out formulas, two loads in one process) against hand-computed values ; sibling agreement of the replacement openpyxl reader with the constructor call of openpyxl itself, read from the installed source',
+    'C12': 'static analysis: writer and reader interpreted over a file system in memory (names -> bytes; open / os.open / gzip with their truncation and position rules) and a document registry standing for jsonpickle: keys, attributes, options, compression by extension, file histories (what is restored is what was persisted last), reconstructibility contract of stored value and error classes ; effect analysis of stores on persisted formula nodes; __getstate__/__setstate__ round trip interpreted on witnesses',
     'C13': 'static analysis: partial evaluation of ModelCompiler.extract on abstract models (chain, diamond, tree, range terms, defined names) with an identity-preserving model of copy.deepcopy: closure, range handling, aliasing with the original, focus handling ; blank references and names in formulas; terms per sheet',
     'C14': 'static analysis: partial evaluation of the aggregate bodies on abstract item tables (numbers, texts, blanks, booleans) and array shapes: what reaches the fold, empty-fold guards, SUMPRODUCT shape decisions; origin analysis of the range array ; aggregates through the registered wrapper (validate_args interpreted as written) on witness argument lists',
-    'C15': 'static analysis: backward slices (parameter influence on returned values), criteria table and regex alphabet, index-guard decision tables ; criteria closures interpreted on witness criteria x cell values through the real operator wrappers',
+    'C15': 'static analysis: backward slices (parameter influence on returned values), criteria table and regex alphabet, CHOOSE decision table ; criteria closures interpreted on witness criteria x cell values through the real operator wrappers ; MATCH / VLOOKUP / COUNTIF(S) witness workbooks against linear scans',
     'C16': 'static analysis: partial evaluation of each function body at the critical points of its domain (library calls modelled, not executed), rounding-mode decision tables through a model of _round, decimal routing, argument binding ; rounding family and POWER through the registered wrapper with decimal arithmetic folded',
     'C17': 'static analysis: affine index forms of slices, raise/no-raise decision tables over a (length, position, count) grid and witness texts by partial evaluation, annotation coercion, simple-map shapes ; text constants through tokenizer and operand node',
-    'C18': 'static analysis: decision tables of the leap-day offsets and epoch guards at critical serials, linear forms of the time-of-day term, WEEKDAY rotation tables, sibling truncation ; DATEDIF through the registered wrapper on anniversaries +-1 day (calendar arithmetic folded)',
+    'C18': 'static analysis: the serial <-> datetime conversions interpreted at critical serials and times of day, epoch guards, WEEKDAY rotation tables, calendar rows around year ends of ordinary / leap / century years, call sequences in one process, sibling truncation ; DATEDIF through the registered wrapper on anniversaries +-1 day (calendar arithmetic folded)',
     'C19': 'static analysis: table coherence by constant folding, wrapper/table cross-check, guard decision tables at window boundaries, origin/destination role dataflow ; digit-string witnesses with the real truth value of Text',
     'C20': 'static analysis: library-binding argument dataflow, backward slices (parameter influence), reflected-operator hazard typing, guard dominance ; NPV/SLN through the registered wrapper on witness cash flows',
 }
